@@ -98,7 +98,10 @@ def main(argv=None):
             for e in rep.harness_errors[:20]:
                 print('HARNESS-ERROR %s' % e, file=sys.stderr)
             return 2
-        return rep.finish()
+        # VERIF_EVIDENCE_DIR: development runs against a changed tree
+        # (VERIF_SRC) must not overwrite the evidence of the real tree
+        return rep.finish(
+            evidence_dir=os.environ.get('VERIF_EVIDENCE_DIR') or None)
     except boot.HarnessError as e:
         print('HARNESS-ERROR %s' % e, file=sys.stderr)
         return 2
